@@ -101,6 +101,7 @@ def build_view(rng, cls, content_len):
             keep.append(bio)
             files.append((SubsectionIO(bio, len(p), len(s)), len(s)))
         v = SplitFileMerger(files)
+        build_view.segs = segs
         return v, content, False, None, keep
     if cls in ('ctr-on-window', 'twl-on-window', 'cbc-on-window'):
         # crypto wrappers stacked on a window: the view is the plaintext; the base holds its independent encryption
@@ -124,12 +125,24 @@ def build_view(rng, cls, content_len):
     raise ValueError(cls)
 
 
-def case_oracle(ctx, case):
+def case_oracle(ctx, case, mr=None):
     rng = __import__('random').Random(case['vseed'])
     v, content, writable, probe, keep = build_view(rng, case['cls'], case['sz'])
     c = fc.Contract(v, content, fail_fn(ctx, case), writable=writable, probe_outside=probe)
     c.run(case['ops'])
     ctx.stat(case['cls'] + '_histories')
+    if case['cls'] == 'merger' and mr is not None:
+        # the merged file also has a Coq model (Model/Merger.v): same history on the extracted model
+        ops = [o for o in case['ops'] if o[0] != 'w']
+        line = 'merger ' + (','.join(s.hex() for s in build_view.segs) or '-') + ' ' + ' '.join(
+            ('r,' + zhex(o[1])) if o[0] == 'r' else ('s,%s,%s' % (zhex(o[1]), zhex(o[2]))) if o[0] == 's' else 't' for o in ops)
+        if len(ops) == len(case['ops']):
+            out = mr.ask(line).split(' ') if ops else []
+            if out != c.results:
+                k = next((i for i, (a, b) in enumerate(zip(out, c.results)) if a != b), None)
+                ctx.diff('corr', 'merger-model', case, out[k] if k is not None else str(out)[:80], c.results[k] if k is not None else str(c.results)[:80],
+                         f'merged file: Coq model and implementation differ at op {k}')
+            ctx.stat('merger_model_histories')
 
 
 def gen_cases(ctx, rng):
@@ -173,7 +186,7 @@ def run_cases(ctx, cases):
             if case['cls'] == 'window':
                 case_window(ctx, mr, case)
             else:
-                case_oracle(ctx, case)
+                case_oracle(ctx, case, mr)
     finally:
         mr.close()
 
